@@ -24,17 +24,23 @@ CONSTANTS ChildCodes,    \* exit codes used by a child that exits first
           ExtSigs,       \* signals the caller sends from outside
           MCExits,       \* exit codes explored (0..255 in the thorough tier)
           DeliverTrap,   \* BOOLEAN: tracer hands a genuine SIGTRAP to the tracee
+          LowByteSignal, \* BOOLEAN: the namespace runner takes the whole low byte of the wait status as the
+                         \* signal (FALSE = the code: WaitStatus.Signal(); TRUE shows what that would break)
           WaitGroup      \* BOOLEAN: the container init waits for the program's process group (-pid)
                          \* instead of the program (FALSE = the code; TRUE shows what that would break)
 
-VARIABLES runner, att, child, execved, mpc, mws, kpc, kws, result, actual
-vars == <<runner, att, child, execved, mpc, mws, kpc, kws, result, actual>>
+VARIABLES runner, att, child, execved, mpc, mws, kpc, kws, result, actual,
+          core           \* core dumps enabled for the program (RLIMIT_CORE > 0, writable work dir)
+vars == <<runner, att, child, execved, mpc, mws, kpc, kws, result, actual, core>>
 
 None == [k |-> "none", n |-> 0]
-NoWs == [t |-> "none", n |-> 0]
-Exited(n)   == [t |-> "exited",   n |-> n]
-Signaled(s) == [t |-> "signaled", n |-> s]
-Stopped(s)  == [t |-> "stopped",  n |-> s]
+NoWs == [t |-> "none", n |-> 0, raw |-> 0]
+Exited(n)   == [t |-> "exited",   n |-> n, raw |-> 0]
+\* wait status of a process ended by signal s: the low byte is s, plus 0x80 when a core was dumped;
+\* WaitStatus.Signal() masks the flag off (n), the raw low byte does not (raw)
+SignaledC(s, c) == [t |-> "signaled", n |-> s, raw |-> s + (IF c /\ s \in CoreSigs THEN 128 ELSE 0)]
+Signaled(s) == SignaledC(s, FALSE)
+Stopped(s)  == [t |-> "stopped",  n |-> s, raw |-> 0]
 NoResult == [status |-> StInvalid, exit |-> 0, err |-> ""]
 Res(st, ex, er) == [status |-> st, exit |-> ex, err |-> er]
 
@@ -84,7 +90,7 @@ PtraceHandle(isMain, ws, ev) ==
 \* runner/unshare Run: Wait4(pgid) only ever returns the main process, exited or signaled
 UnshareResult(ws) ==
   IF ws.t = "exited" THEN Res(IF ws.n # 0 THEN StNonzero ELSE StNormal, ws.n, "")
-  ELSE Res(SwitchSignal(ws.n), ws.n, "")
+  ELSE LET sig == IF LowByteSignal THEN ws.raw ELSE ws.n IN Res(SwitchSignal(sig), sig, "")
 
 \* container: init converts the wait status into a reply, the host converts the reply
 InitReply(ws) ==
@@ -102,6 +108,8 @@ Init ==
   /\ execved = (att.kind # "badexec")
   /\ mpc = "fork" /\ mws = NoWs /\ kpc = "absent" /\ kws = NoWs
   /\ result = NoResult /\ actual = None
+  /\ core \in BOOLEAN
+  /\ core => att.kind \in {"raise", "fault", "sys"} /\ SignalOf(att.kind, att.n) \in CoreSigs
 
 Running == result = NoResult
 
@@ -112,15 +120,15 @@ StartFails ==
      THEN \* Start() succeeds (the child is stopped before exec), exec fails, the child exits
           /\ mpc' = "dead" /\ mws' = Exited(1) /\ UNCHANGED result
      ELSE /\ result' = Res(StRunnerError, 0, "execve: no such file or directory")
-          /\ UNCHANGED <<mpc, mws>>
-  /\ UNCHANGED <<runner, att, child, execved, kpc, kws, actual>>
+          /\ UNCHANGED <<mpc, mws, core>>
+  /\ UNCHANGED <<runner, att, child, execved, kpc, kws, actual, core>>
 
 MainFork ==
   /\ Running /\ mpc = "fork" /\ att.kind # "badexec"
   /\ CASE child.k = "none"    -> mpc' = "act" /\ UNCHANGED kpc
        [] child.k = "outlive" -> mpc' = "act" /\ kpc' = "sleep"
        [] OTHER               -> mpc' = "waitkid" /\ kpc' = "act"
-  /\ UNCHANGED <<runner, att, child, execved, mws, kws, result, actual>>
+  /\ UNCHANGED <<runner, att, child, execved, mws, kws, result, actual, core>>
 
 KidAct ==
   /\ Running /\ kpc = "act"
@@ -128,12 +136,12 @@ KidAct ==
      ELSE IF runner = "ptrace" /\ child.n # SIGKILL
           THEN kpc' = "stopped" /\ kws' = Stopped(child.n)
           ELSE kpc' = "dead" /\ kws' = Signaled(child.n)
-  /\ UNCHANGED <<runner, att, child, execved, mpc, mws, result, actual>>
+  /\ UNCHANGED <<runner, att, child, execved, mpc, mws, result, actual, core>>
 
 KidAfter ==    \* the child's signal did not end it
   /\ Running /\ kpc = "after"
   /\ kpc' = "dead" /\ kws' = Exited(95)
-  /\ UNCHANGED <<runner, att, child, execved, mpc, mws, result, actual>>
+  /\ UNCHANGED <<runner, att, child, execved, mpc, mws, result, actual, core>>
 
 \* waitpid() in the main process returns once the child is dead; a traced child is handed
 \* back to its real parent only after the tracer has seen its end
@@ -145,7 +153,7 @@ MainWaitKid ==
           kpc \in {"dead", "reaped"} /\ UNCHANGED kpc
      ELSE (IF runner = "ptrace" THEN kpc = "reaped" ELSE kpc = "dead") /\ kpc' = "reaped"
   /\ mpc' = "act"
-  /\ UNCHANGED <<runner, att, child, execved, mws, kws, result, actual>>
+  /\ UNCHANGED <<runner, att, child, execved, mws, kws, result, actual, core>>
 
 MainAct ==
   /\ Running /\ mpc = "act"
@@ -153,16 +161,16 @@ MainAct ==
      IF att.kind = "exit"
      THEN mpc' = "dead" /\ mws' = Exited(att.n) /\ actual' = ExitEnd(att.n)
      ELSE IF ~KernelFatal(runner, att.kind, s)
-     THEN mpc' = "after" /\ UNCHANGED <<mws, actual>>
+     THEN mpc' = "after" /\ UNCHANGED <<mws, actual, core>>
      ELSE IF runner = "ptrace" /\ StopsFirst(att.kind, s)
      THEN mpc' = "stopped" /\ mws' = Stopped(s) /\ UNCHANGED actual
-     ELSE mpc' = "dead" /\ mws' = Signaled(s) /\ actual' = SigEnd(s)
-  /\ UNCHANGED <<runner, att, child, execved, kpc, kws, result>>
+     ELSE mpc' = "dead" /\ mws' = SignaledC(s, core) /\ actual' = SigEnd(s)
+  /\ UNCHANGED <<runner, att, child, execved, kpc, kws, result, core>>
 
 MainAfter ==
   /\ Running /\ mpc = "after"
   /\ mpc' = "dead" /\ mws' = Exited(SurvivorExit) /\ actual' = ExitEnd(SurvivorExit)
-  /\ UNCHANGED <<runner, att, child, execved, kpc, kws, result>>
+  /\ UNCHANGED <<runner, att, child, execved, kpc, kws, result, core>>
 
 \* one iteration of the tracer loop: wait4(-pgid) returns any pending event
 TracerMain ==
@@ -172,34 +180,34 @@ TracerMain ==
      THEN /\ result' = Res(h.status, h.exit, h.err)
           \* a main process stopped at the delivery of s is killed by the runner: s is what ended it
           /\ actual' = IF mpc = "stopped" THEN SigEnd(mws.n) ELSE actual
-          /\ UNCHANGED <<mpc, mws>>
+          /\ UNCHANGED <<mpc, mws, core>>
      ELSE /\ UNCHANGED result
           /\ IF h.cont = "suppress" THEN mpc' = "after" /\ mws' = NoWs /\ UNCHANGED actual
-             ELSE mpc' = "dead" /\ mws' = Signaled(mws.n) /\ actual' = SigEnd(mws.n)
-  /\ UNCHANGED <<runner, att, child, execved, kpc, kws>>
+             ELSE mpc' = "dead" /\ mws' = SignaledC(mws.n, core) /\ actual' = SigEnd(mws.n)
+  /\ UNCHANGED <<runner, att, child, execved, kpc, kws, core>>
 
 TracerKid ==
   /\ Running /\ runner = "ptrace" /\ kpc \in {"stopped", "dead"}
   /\ LET h == PtraceHandle(FALSE, kws, execved) IN
      IF h.finished \/ h.status # StNormal
-     THEN result' = Res(h.status, h.exit, h.err) /\ UNCHANGED <<kpc, kws>>
+     THEN result' = Res(h.status, h.exit, h.err) /\ UNCHANGED <<kpc, kws, core>>
      ELSE /\ UNCHANGED result
           /\ IF kpc = "dead" THEN kpc' = "reaped" /\ UNCHANGED kws
              ELSE IF h.cont = "suppress" THEN kpc' = "after" /\ kws' = NoWs
              ELSE kpc' = "dead" /\ kws' = Signaled(kws.n)
-  /\ UNCHANGED <<runner, att, child, execved, mpc, mws, actual>>
+  /\ UNCHANGED <<runner, att, child, execved, mpc, mws, actual, core>>
 
 Waiter ==      \* unshare: Wait4(pgid); container: waitLoop Wait4(pid) + the two conversions
   /\ Running /\ runner # "ptrace" /\ mpc = "dead"
   /\ result' = IF runner = "unshare" THEN UnshareResult(mws) ELSE HostResult(InitReply(mws))
-  /\ UNCHANGED <<runner, att, child, execved, mpc, mws, kpc, kws, actual>>
+  /\ UNCHANGED <<runner, att, child, execved, mpc, mws, kpc, kws, actual, core>>
 
 \* Only with WaitGroup: in the container the orphan is a child of init (pid 1) and still in the
 \* program's process group, so wait4(-pid) may return it
 WaiterGroup ==
   /\ Running /\ WaitGroup /\ runner \in {"cbefore", "cafter"} /\ Orphan /\ kpc = "dead"
   /\ result' = HostResult(InitReply(kws))
-  /\ UNCHANGED <<runner, att, child, execved, mpc, mws, kpc, kws, actual>>
+  /\ UNCHANGED <<runner, att, child, execved, mpc, mws, kpc, kws, actual, core>>
 
 Next == WaiterGroup \/ StartFails \/ MainFork \/ KidAct \/ KidAfter \/ MainWaitKid \/ MainAct \/ MainAfter
         \/ TracerMain \/ TracerKid \/ Waiter
